@@ -798,7 +798,13 @@ pub fn validate_abnf(abnf: &str, target: &str) -> Result<(), String> {
     let pairs = pest_meta::parser::parse(pest_meta::parser::Rule::grammar_rules, &pest)
       .map_err(|e| e.to_string())?;
 
-    let ast = pest_meta::parser::consume_rules(pairs).unwrap();
+    let ast = pest_meta::parser::consume_rules(pairs).map_err(|errors| {
+      errors
+        .iter()
+        .map(|e| e.to_string())
+        .collect::<Vec<_>>()
+        .join("; ")
+    })?;
 
     let vm = pest_vm::Vm::new(pest_meta::optimizer::optimize(ast));
 
@@ -1491,7 +1497,7 @@ pub fn validate_base10_text<'a>(
     if text_value.starts_with('0') && text_value.len() > 1 {
       return Ok(false); // No leading zeros
     }
-    if !text_value.chars().next().unwrap().is_ascii_digit() || text_value.starts_with('0') {
+    if !text_value.starts_with(|c: char| c.is_ascii_digit()) || text_value.starts_with('0') {
       return Ok(false);
     }
   }
